@@ -67,6 +67,13 @@ func main() {
 			os.Exit(1)
 		}
 		props.DebugLoopFlags(prog)
+	case "rangestr":
+		prog, err := core.Load(core.RepoDir(), "")
+		if err != nil {
+			fmt.Println(err)
+			os.Exit(1)
+		}
+		props.DebugRangeString(prog)
 	case "ackjoin":
 		prog, err := core.Load(core.RepoDir(), "")
 		if err != nil {
